@@ -78,3 +78,28 @@ float ok_r16g_best_swapped(int n)
         free(best);
         return s;
 }
+
+/* R16h: errno read without a failed call */
+#include <errno.h>
+#include <sys/stat.h>
+int bad_r16h_stale_errno(const char *name)
+{
+        struct st_dummy { int x; } d; struct stat sb;
+        (void) d;
+        stat(name, &sb);
+        if (errno == ENOENT) {                          /* stat may have succeeded: errno is whatever it was before */
+                return 0;
+        }
+        return 1;
+}
+int ok_r16h_failure_branch(const char *name)
+{
+        struct stat sb;
+        if (stat(name, &sb) != 0) {
+                if (errno == ENOENT) {
+                        return 0;
+                }
+                return -1;
+        }
+        return 1;
+}
